@@ -46,6 +46,8 @@ type Explorer struct {
 	Fns          map[*ssa.Function]bool
 	Models       map[string]bool
 	Unknowns     int
+	fpAlt        bool
+	NoFPFallback bool
 	UnknownMsgs  map[string]int
 	Samples      []PathSample
 	SolverStats  map[string]*SolverStat
@@ -73,7 +75,20 @@ type PathSample struct {
 type Worker struct {
 	ex     *Explorer
 	solver *Solver
+	alt    *Solver // cvc5 beside a z3 primary, started on the first FP fallback
 	id     int
+}
+
+func (ex *Explorer) fpAltOn() bool {
+	ex.mu.Lock()
+	defer ex.mu.Unlock()
+	return ex.fpAlt
+}
+
+func (ex *Explorer) setFPAlt() {
+	ex.mu.Lock()
+	ex.fpAlt = true
+	ex.mu.Unlock()
 }
 
 func (ex *Explorer) push(p []Decision) {
@@ -177,16 +192,26 @@ func (ex *Explorer) Explore() error {
 				ex.doneOne()
 			}
 			ex.mu.Lock()
-			st := ex.SolverStats[s.Kind]
-			if st == nil {
-				st = &SolverStat{}
-				ex.SolverStats[s.Kind] = st
+			for _, s := range []*Solver{s, w.alt} {
+				if s == nil {
+					continue
+				}
+				name := s.Kind
+				if s == w.alt {
+					name += " (fp fallback)"
+					s.Close()
+				}
+				st := ex.SolverStats[name]
+				if st == nil {
+					st = &SolverStat{}
+					ex.SolverStats[name] = st
+				}
+				st.Queries += s.Queries
+				st.Sat += s.NSat
+				st.Unsat += s.NUnsat
+				st.Unknown += s.NUnknown
+				st.Seconds += s.Time.Seconds()
 			}
-			st.Queries += s.Queries
-			st.Sat += s.NSat
-			st.Unsat += s.NUnsat
-			st.Unknown += s.NUnknown
-			st.Seconds += s.Time.Seconds()
 			ex.mu.Unlock()
 		}()
 	}
@@ -215,11 +240,14 @@ func (w *Worker) runPath(prefix []Decision) {
 	w.solver.Push()
 	r.execute(ex.Entry)
 	if r.outcome == OutOK && ex.WitnessEvery > 0 && ex.wantWitness() {
-		if res, model := w.solver.CheckWithModel(r.inputs); res == Sat {
+		if res, model := r.solverCheckModel(); res == Sat {
 			ex.addWitness(r.decodeInputs(model))
 		}
 	}
 	w.solver.Pop()
+	if r.useAlt {
+		w.alt.Pop()
+	}
 
 	ex.mu.Lock()
 	defer ex.mu.Unlock()
